@@ -38,7 +38,7 @@ class Gen:
     def coord(self, axis=None):
         r = self.rng
         if r.random() < self.malformed * 0.5:
-            return r.choice(["nan", "inf", "-inf"])
+            return r.choice(["nan", "inf", "-inf", "huge", "-huge"])
         if self.axes and axis is not None and r.random() < 0.35:
             lo, hi = self.axes[0][axis], self.axes[1][axis]
             step = Fraction(1, G)
@@ -59,7 +59,7 @@ class Gen:
         if r.random() < 0.06:
             return "0"
         if r.random() < self.malformed:
-            return r.choice(["nan", "inf", "-inf", "-1", "-1/32"])
+            return r.choice(["nan", "inf", "-inf", "-1", "-1/32", "huge"])
         if kind in self.num and r.random() < 0.5:
             a, b = self.num[kind]
             step = Fraction(1, G)
@@ -264,7 +264,8 @@ def run_model(histories: list[list[str]]) -> list[list[str]]:
     flat = []
     for h in histories:
         flat.append("reset")
-        flat.extend(h)
+        # `huge` (an int beyond the double range) is, in the model's vocabulary, a value that is no finite number
+        flat.extend(ln.replace("huge", "inf") if "huge" in ln else ln for ln in h)
     out = core.run_model("builder", flat)
     res, i = [], 0
     for h in histories:
